@@ -3,6 +3,7 @@ package cisco
 import (
 	"fmt"
 	"math/rand"
+	"strconv"
 	"strings"
 )
 
@@ -380,7 +381,7 @@ func (g *Gen) Device(t *GConf, nedits int, unmanaged bool) (*GConf, []string) {
 			}
 			continue
 		}
-		switch g.Rng.Intn(19) {
+		switch g.Rng.Intn(21) {
 		case 0: // generated names on device
 			for _, a := range d.ACLs {
 				old := a.Name
@@ -564,6 +565,39 @@ func (g *Gen) Device(t *GConf, nedits int, unmanaged bool) (*GConf, []string) {
 					ops = append(ops, "binding-extra")
 				}
 			}
+		case 19: // one ACL line differs from the target's in one character
+			if len(d.ACLs) > 0 {
+				a := d.ACLs[g.Rng.Intn(len(d.ACLs))]
+				i := g.Rng.Intn(len(a.Lines))
+				if n := nearLine(g.Rng, a.Lines[i]); n != a.Lines[i] {
+					a.Lines[i] = n
+					a.Lines = dedupLines(a.Lines, g.Kind == "ios")
+					ops = append(ops, "acl-line-near-value")
+				}
+			}
+		case 20: // group member / route differs in one character
+			if len(d.Groups) > 0 && g.Rng.Intn(2) == 0 {
+				gr := d.Groups[g.Rng.Intn(len(d.Groups))]
+				i := g.Rng.Intn(len(gr.Members))
+				if n := nearLine(g.Rng, gr.Members[i]); n != gr.Members[i] {
+					dup := false
+					for _, m := range gr.Members {
+						dup = dup || m == n
+					}
+					if !dup {
+						gr.Members[i] = n
+						ops = append(ops, "group-near-value")
+					}
+				}
+			} else if len(d.Routes) > 0 {
+				i := g.Rng.Intn(len(d.Routes))
+				w := strings.Fields(d.Routes[i])
+				if strings.Count(w[len(w)-1], ".") == 3 {
+					w[len(w)-1] = nearAddr(g.Rng, w[len(w)-1])
+					d.Routes[i] = strings.Join(w, " ")
+					ops = append(ops, "route-near-value")
+				}
+			}
 		case 17, 18: // several line edits inside one ACL, so that they interact
 			if len(d.ACLs) > 0 {
 				a := d.ACLs[g.Rng.Intn(len(d.ACLs))]
@@ -739,4 +773,66 @@ func (g *Gen) DeviceSpelling(text string) string {
 		lines[i] = l
 	}
 	return strings.Join(lines, "\n")
+}
+
+// nearAddr changes the last octet of a dotted address to a number that is
+// one digit longer, shorter or differs in the last digit.
+func nearAddr(rng *rand.Rand, a string) string {
+	i := strings.LastIndex(a, ".")
+	var n int
+	fmt.Sscanf(a[i+1:], "%d", &n)
+	return fmt.Sprintf("%s.%d", a[:i], nearInt(rng, n, 254))
+}
+
+func nearInt(rng *rand.Rand, n, max int) int {
+	var c []int
+	for d := 0; d < 10; d++ {
+		if x := n/10*10 + d; x != n && x >= 1 && x <= max {
+			c = append(c, x)
+		}
+		if x := n*10 + d; x >= 1 && x <= max {
+			c = append(c, x)
+		}
+	}
+	if n >= 10 {
+		c = append(c, n/10)
+	}
+	if len(c) == 0 {
+		return n
+	}
+	return c[rng.Intn(len(c))]
+}
+
+// nearLine changes one host address or one port number of an ACL line or
+// group member to a near value.
+func nearLine(rng *rand.Rand, l string) string {
+	w := strings.Fields(l)
+	var cand []int
+	for i := 1; i < len(w); i++ {
+		switch w[i-1] {
+		case "host":
+			cand = append(cand, i)
+		case "eq", "gt", "range":
+			if _, err := strconv.Atoi(w[i]); err == nil {
+				cand = append(cand, i)
+			}
+		}
+	}
+	if len(cand) == 0 {
+		return l
+	}
+	i := cand[rng.Intn(len(cand))]
+	if w[i-1] == "host" {
+		w[i] = nearAddr(rng, w[i])
+	} else {
+		n, _ := strconv.Atoi(w[i])
+		m := nearInt(rng, n, 65535)
+		if w[i-1] == "range" && i+1 < len(w) {
+			if hi, err := strconv.Atoi(w[i+1]); err == nil && m >= hi {
+				return l
+			}
+		}
+		w[i] = strconv.Itoa(m)
+	}
+	return strings.Join(w, " ")
 }
